@@ -39,6 +39,7 @@ def prog_to_text(prog):
         if c and len(c) > 3 and c[3] is not None: ext = 'u%d' % c[3]
         if c and len(c) > 4 and c[4] is not None: ext = 'a%d' % c[4]                       # a glyph attribute of the item's glyph
         if c and len(c) > 5 and c[5] is not None: ext = 'k%d' % c[5][2]                    # a feature of the segment: (index, id, value in force)
+        if c and len(c) > 6 and c[6] == 'posx': ext = 'p'
         return ('~c%d%s%d%s' % (c[0], c[1], c[2], ext) if c else '') + ('~r%d' % r['ret'] if r.get('ret') else '')
     return '/'.join('%d:' % p.get('maxloop', 5) + ';'.join('%d~%s~%s%s' % (r['pre'], ','.join('.'.join(map(str, sorted(s))) for s in r['pat']),
                                                          ','.join('&'.join(act(a) for a in al) if al else '-' for al in r['acts']), con(r)) for r in p['rules']) for p in prog)
@@ -108,6 +109,8 @@ def compile_constraint(rule):
         push = [OP['PUSH_GLYPH_ATTR_OBS'], c[4], 0]
     if len(c) > 5 and c[5] is not None:
         push = [OP['PUSH_FEAT'], c[5][0], 0]
+    if len(c) > 6 and c[6] == 'posx':
+        push = [OP['PUSH_SLOT_ATTR'], 18, 0]               # position.x: makes the engine position the rule's slots (font = NULL) before it tests
     block = push + [OP['PUSH_SHORT'], (val >> 8) & 255, val & 255, {'l': OP['LESS'], 'g': OP['GTR'], 'e': OP['EQUAL']}[op]]
     return bytes([OP['CNTXT_ITEM'], (item - rule['pre']) & 255, len(block)] + block + [OP['POP_RET']])
 
